@@ -2424,7 +2424,8 @@ STORE_VST = {"VaultSt": {"Balance": (["Address"], "i128"), "TotalSupply": ([], "
 READS_VST = {"VaultSt": {"ledger_sequence": "u32", "min_temp_ttl": "u32", "max_ttl": "u32", "authorized": "addr2bool",
                          "current_contract_address": "Address", "asset_auth": "Vec<Address>"}}
 FILES_VST = [("VaultSt", "packages/tokens/src/fungible/storage.rs",
-              ["total_supply", "balance", "allowance_data", "allowance", "set_allowance", "spend_allowance", "update"]),
+              ["total_supply", "balance", "allowance_data", "allowance", "set_allowance", "spend_allowance", "update",
+               "approve", "transfer", "transfer_from"]),
              ("VaultSt", "packages/tokens/src/vault/storage.rs",
               ["query_asset", "total_assets", "get_decimals_offset", "convert_to_shares_with_rounding", "convert_to_assets_with_rounding",
                "max_deposit", "max_mint", "max_withdraw", "max_redeem", "preview_deposit", "preview_mint", "preview_withdraw", "preview_redeem",
